@@ -218,7 +218,7 @@ theorem ConfReq.cancel_A {r : ConfReq} (reg : Nat) (h : r.AllB) : (r.cancel reg)
   · refine all_map (P := ConfNtfn.B) (fun n hn => ?_) h
     split
     · obtain ⟨b, hb, _⟩ := hn
-      split <;> exact ⟨b, hb, fun hc => by simp at hc⟩
+      exact ⟨b, hb, fun hc => by simp [ConfNtfn.cancelled] at hc⟩
     · exact hn.toA
 
 theorem ConfReq.update_A {r : ConfReq} (cur limit : Nat) (d : Option ConfDetails) (h : r.AllB) :
@@ -245,7 +245,7 @@ theorem ConfReq.atTip_B {r : ConfReq} (d : ConfDetails) (h : r.AllB) : (r.atTip 
       · obtain ⟨b, hb, hc⟩ := hn
         refine ⟨b, hb, fun hcl => ?_⟩
         obtain ⟨h1, h2, h3⟩ := hc hcl
-        simp [h1, h2, h3]
+        simp [ConfNtfn.tipped, h1, h2, h3]
       · exact hn
 
 theorem ConfReq.updateHint_B {r : ConfReq} (cur height : Nat) (h : r.AllB) :
@@ -274,48 +274,42 @@ theorem ConfReq.connect_B {r : ConfReq} (cur limit : Nat) (b : Block) (h : r.All
   | nil => exact h
   | cons i t ih => exact ih (ConfReq.atTip_B _ h)
 
-theorem ConfReq.notify_A {r : ConfReq} (height : Nat) (h : r.AllB) : (r.notify height).AllA := by
-  unfold ConfReq.notify
-  -- first phase: updates
-  have h1 : ∀ r1, r1 = (if r.initialAt.isEmpty then r else
-      match r.set, r.details with
-      | true, some d =>
-        { r with ntfns := r.ntfns.map fun n =>
-            if n.live then
-              let tch := d.height + n.numConfs - 1
-              if tch < height then n else n.sendUpdate (tch - height) d.height
-            else n }
-      | true, none => if r.ntfns.any (·.live) then { r with panicked := true } else r
-      | false, _ => { r with panicked := true }) → r1.AllB := by
-    intro r1 hr1
-    subst hr1
-    split
-    · exact h
-    · split
-      · refine all_map (P := ConfNtfn.B) (fun n hn => ?_) h
-        split
-        · simp only; split
-          · exact hn
-          · exact ConfNtfn.sendUpdate_B _ _ hn
-        · exact hn
-      · split <;> exact h
-      · exact h
-  simp only
-  generalize hr1 : (if r.initialAt.isEmpty then r else _) = r1
-  have hb1 : r1.AllB := h1 r1 hr1.symm
-  -- second phase + third phase
-  refine all_map (P := ConfNtfn.A) (fun n hn => ConfNtfn.A_congr rfl rfl rfl rfl rfl hn) ?_
+theorem ConfReq.notifyUpdates_B {r : ConfReq} (height : Nat) (h : r.AllB) :
+    (r.notifyUpdates height).AllB := by
+  unfold ConfReq.notifyUpdates
   split
-  · exact hb1.toA
+  · exact h
+  · split
+    · refine all_map (P := ConfNtfn.B) (fun n hn => ?_) h
+      split
+      · unfold ConfNtfn.updateAt
+        simp only; split
+        · exact hn
+        · exact ConfNtfn.sendUpdate_B _ _ hn
+      · exact hn
+    · split <;> exact h
+    · exact h
+
+theorem ConfReq.notifyDue_A {r : ConfReq} (height : Nat) (h : r.AllB) :
+    (r.notifyDue height).AllA := by
+  unfold ConfReq.notifyDue
+  split
+  · exact h.toA
   · split
     · split
-      · exact hb1.toA
-      · refine all_map (P := ConfNtfn.B) (fun n hn => ?_) hb1
+      · exact h.toA
+      · refine all_map (P := ConfNtfn.B) (fun n hn => ?_) h
+        unfold ConfNtfn.confirmAt
         split
         · rename_i hq
           exact ConfNtfn.sendConfirmed_A _ hn (by simp at hq; exact hq.2)
         · exact hn.toA
-    · exact hb1.toA
+    · exact h.toA
+
+theorem ConfReq.notify_A {r : ConfReq} (height : Nat) (h : r.AllB) : (r.notify height).AllA := by
+  unfold ConfReq.notify
+  refine all_map (P := ConfNtfn.A) (fun n hn => ConfNtfn.A_congr rfl rfl rfl rfl rfl hn) ?_
+  exact ConfReq.notifyDue_A height (ConfReq.notifyUpdates_B height h)
 
 theorem ConfReq.disconnect_A {r : ConfReq} (cur depth height : Nat) (h : r.AllB) :
     (r.disconnect cur depth height).AllA := by
@@ -331,6 +325,8 @@ theorem ConfReq.disconnect_A {r : ConfReq} (cur depth height : Nat) (h : r.AllB)
       split
       · have hn' : ({ n with updates := n.updates.drop r0.initialAt.length, left := n.numConfs } : ConfNtfn).B :=
           ConfNtfn.B_congr rfl rfl rfl rfl rfl hn
+        unfold ConfNtfn.disconnected
+        simp only
         split
         · exact ConfNtfn.reorg_A _ _ hn'
         · exact hn'.toA
